@@ -11,7 +11,7 @@ import (
 func verifBaseRule(i int) *Rule {
 	// two stat-compatible error-count rules that differ in their threshold
 	return &Rule{Resource: "A", Strategy: ErrorCount, RetryTimeoutMs: 1 + rt.U32n("retry", 16), MinRequestAmount: rt.U64n("min", 4),
-		StatIntervalMs: 1000, StatSlidingWindowBucketCount: 1, Threshold: float64(1 + i + int(rt.U32n("thr", 3))*4), ProbeNum: rt.U64n("probe", 2)}
+		StatIntervalMs: 1000, StatSlidingWindowBucketCount: uint32(rt.Param("BC")), Threshold: float64(1 + i + int(rt.U32n("thr", 3))*4), ProbeNum: rt.U64n("probe", 2)}
 }
 
 func VerifC14() {
@@ -29,6 +29,11 @@ func VerifC14() {
 			rep[i] = i
 			old = append(old, verifBaseRule(i))
 		}
+	}
+	// the new lists are written from values taken before the load (callers build fresh objects; the library must not depend on, or change, the loaded ones)
+	snap := make([]Rule, len(old))
+	for i, r := range old {
+		snap[i] = *r
 	}
 	if _, err := LoadRules(old); err != nil {
 		rt.Assert(false, "initial load failed")
@@ -51,10 +56,10 @@ func VerifC14() {
 		c := rt.Choice(2*nOld + 1)
 		switch {
 		case c < nOld:
-			x := *old[c]
+			x := snap[c]
 			nl, kind[i] = append(nl, &x), rep[c]
 		case c < 2*nOld:
-			x := *old[c-nOld]
+			x := snap[c-nOld]
 			x.Threshold += 100 // same statistic shape, different threshold
 			nl, kind[i] = append(nl, &x), 10+rep[c-nOld]
 		default:
